@@ -44,6 +44,12 @@ func (m *Mutex) Lock() {
 func (m *Mutex) TryLock() bool { return m.m.TryLock() }
 
 func (m *Mutex) Unlock() {
+	if sim.Active() && m.m.TryLock() {
+		// it was NOT locked: the real runtime ends the process here ("fatal error: sync: unlock
+		// of unlocked mutex", not recoverable). One task runs at a time, so the probe is exact.
+		m.m.Unlock()
+		sim.Fatal("sync: unlock of unlocked mutex")
+	}
 	m.m.Unlock()
 	sim.Progress()
 }
@@ -75,11 +81,19 @@ func (m *RWMutex) TryLock() bool  { return m.m.TryLock() }
 func (m *RWMutex) TryRLock() bool { return m.m.TryRLock() }
 
 func (m *RWMutex) Unlock() {
+	if sim.Active() && m.m.TryLock() {
+		m.m.Unlock()
+		sim.Fatal("sync: Unlock of unlocked RWMutex")
+	}
 	m.m.Unlock()
 	sim.Progress()
 }
 
 func (m *RWMutex) RUnlock() {
+	if sim.Active() && m.m.TryLock() {
+		m.m.Unlock()
+		sim.Fatal("sync: RUnlock of unlocked RWMutex")
+	}
 	m.m.RUnlock()
 	sim.Progress()
 }
